@@ -302,7 +302,7 @@ func loopRoles(p *packages.Package, body ast.Node) map[types.Object]string {
 				return false
 			case *ast.RangeStmt:
 				ord++
-				*prints = append(*prints, "range "+exprStr(st.X))
+				*prints = append(*prints, "seq "+exprStr(st.X))
 				if tv, ok := p.TypesInfo.Types[st.X]; ok {
 					if _, isSl := tv.Type.Underlying().(*types.Slice); isSl && !strings.Contains(exprStr(st.X), "…") {
 						seqs[fmt.Sprint(ord)] = exprStr(st.X)
@@ -329,11 +329,19 @@ func loopRoles(p *packages.Package, body ast.Node) map[types.Object]string {
 				}
 			case *ast.ForStmt:
 				ord++
+				fp := "for"
 				if st.Cond != nil {
-					*prints = append(*prints, "for "+exprStr(st.Cond))
-				} else {
-					*prints = append(*prints, "for")
+					fp = "for " + exprStr(st.Cond)
+					// `for i := 0; i < len(x); i++` walks x like `range x`
+					if be, ok := st.Cond.(*ast.BinaryExpr); ok && be.Op == token.LSS {
+						if cl, ok := ast.Unparen(be.Y).(*ast.CallExpr); ok && len(cl.Args) == 1 {
+							if fid, ok := cl.Fun.(*ast.Ident); ok && fid.Name == "len" {
+								fp = "seq " + exprStr(cl.Args[0])
+							}
+						}
+					}
 				}
+				*prints = append(*prints, fp)
 				if be, ok := st.Cond.(*ast.BinaryExpr); ok && be.Op == token.LSS {
 					if c, ok := ast.Unparen(be.Y).(*ast.CallExpr); ok && len(c.Args) == 1 {
 						if fid, ok := c.Fun.(*ast.Ident); ok && fid.Name == "len" {
@@ -825,6 +833,7 @@ func applyRenames(c *FuncContract, ren map[string]string) {
 	c.GhostCall = renameClauseMap(c.GhostCall, ren)
 	c.RecvAssume = renameClauseMap(c.RecvAssume, ren)
 	c.After = renameClauseMap(c.After, ren)
+	c.expandCalleeAliases()
 	if c.AssumeNoPanic != nil {
 		m := map[string]string{}
 		for k, v := range c.AssumeNoPanic {
@@ -1087,5 +1096,106 @@ func applyLoopPerm(c *FuncContract, perm map[int]int) {
 	c.LoopUnperm = map[int]int{}
 	for o, n := range perm {
 		c.LoopUnperm[n] = o
+	}
+}
+
+
+// expandCalleeAliases: a recorded local that now goes by several names (declared in several scopes, or split) cannot be
+// resolved per program point where it appears in a *callee text* (callreq x.M, ncalls(x.M)). Clauses keyed by such a callee
+// are attached to the callee under every alias, and a counter over it becomes the sum of the counters over the aliases.
+func (c *FuncContract) expandCalleeAliases() {
+	if len(c.Alias) == 0 {
+		return
+	}
+	plainAliases := func(name string) []string {
+		var out []string
+		for _, a := range c.Alias[name] {
+			if at := strings.Index(a, "@"); at > 0 {
+				a = a[:at]
+			}
+			if strings.ContainsAny(a, "$([") {
+				continue
+			}
+			dup := false
+			for _, o := range out {
+				if o == a {
+					dup = true
+				}
+			}
+			if !dup {
+				out = append(out, a)
+			}
+		}
+		return out
+	}
+	lead := func(key string) (string, string) {
+		k := strings.TrimPrefix(key, "after:")
+		i := strings.Index(k, ".")
+		if i <= 0 {
+			return "", ""
+		}
+		return k[:i], k[i:]
+	}
+	expandMap := func(m map[string][]Clause) map[string][]Clause {
+		if m == nil {
+			return nil
+		}
+		out := map[string][]Clause{}
+		for k, cs := range m {
+			head, rest := lead(k)
+			al := plainAliases(head)
+			if head == "" || len(al) == 0 {
+				out[k] = append(out[k], cs...)
+				continue
+			}
+			pre := ""
+			if strings.HasPrefix(k, "after:") {
+				pre = "after:"
+			}
+			for _, a := range al {
+				nk := pre + a + rest
+				out[nk] = append(out[nk], cs...)
+				c.UnrenameText = append(c.UnrenameText, [2]string{a + rest, head + rest})
+			}
+		}
+		return out
+	}
+	c.CallReq = expandMap(c.CallReq)
+	c.After = expandMap(c.After)
+	c.GhostCall = expandMap(c.GhostCall)
+	// counters: ncalls(x.M) -> (ncalls(a1.M) + ncalls(a2.M))
+	reN := regexp.MustCompile(`ncalls\(([A-Za-z_][A-Za-z0-9_]*)(\.[A-Za-z0-9_.]+)\)`)
+	fix := func(t string) string {
+		return reN.ReplaceAllStringFunc(t, func(m string) string {
+			sub := reN.FindStringSubmatch(m)
+			al := plainAliases(sub[1])
+			if len(al) == 0 {
+				return m
+			}
+			var parts []string
+			for _, a := range al {
+				parts = append(parts, "ncalls("+a+sub[2]+")")
+			}
+			return "(" + strings.Join(parts, " + ") + ")"
+		})
+	}
+	fixAll := func(cs []Clause) {
+		for i := range cs {
+			cs[i].Text = fix(cs[i].Text)
+		}
+	}
+	fixAll(c.Requires)
+	fixAll(c.Ensures)
+	fixAll(c.Canary)
+	for _, cs := range c.LoopInv {
+		fixAll(cs)
+	}
+	for _, cs := range c.LoopRet {
+		fixAll(cs)
+	}
+	for _, m := range []map[string][]Clause{c.CallReq, c.After, c.GhostCall} {
+		for _, cs := range m {
+			fixAll(cs)
+		}
 	}
 }
